@@ -97,6 +97,10 @@ def leafStmts (leaf : String) : Option (List Stmt) :=
   else if leaf = "fail" then some [.simple [.callFunction, .other]]
   else if leaf = "failk" then some [.simple [.other, .other, .other, .callFunction, .other]]
   else if leaf = "finc" then some [.simple [.other, .other]]
+  else if leaf = "bi" then
+    -- builtins (filters / tests are `other`), `debug()`, a set block, `issafe(sc)`
+    some [.simple (List.replicate 3 .other ++ [.callFunction] ++ List.replicate 3 .other), .capture (os 1) 1,
+          .simple [.other, .callFunction, .other]]
   else none
 
 /-- statements of the chain from position `i` on, and the block streams defined below it -/
